@@ -13,7 +13,7 @@ CLAIMED = {
               'Python-slice / sample definitions (SliceSelAbs.tla) for every selector and length in the bound, the abstract '
               'operators are evaluated by TLC on the whole bounded domain and every row is replayed on the real classes '
               '(exhaustive in the bound), and recorded call histories on real objects with lengths up to 5000 are '
-              'validated by TLC against SliceSelTrace.tla.'),
+              'validated by TLC against SliceSelTrace.tla.  Unbounded: Apalache discharges the inductive invariant of the error-diffusion sampler (SampleInd.tla) for all N < n.  In situ: every Slice / Sample object created by the LAS converters on generated files and by the repository test_Slice.py is recorded and validated against SliceSelTrace.tla.'),
         note='Trusts TLC, the Json community module and the harness rendering of option-string part classes; steps >= 1 only.',
         technique='TLA+ spec + TLC model checking; spec-derived exhaustive replay; TLC trace validation'),
     'C16': dict(
